@@ -91,6 +91,28 @@ pub fn move_cell_tail(&mut self, sheet: u32, source_row: i32, source_column: i32
     Ok(())
 }
 
+// re-creating the cells of the moved line at the target: the saved style is written AFTER the content is re-entered
+// (re-entry through set_user_input adjusts styles: it must not be the last word on the moved cell's style)
+#[verifier::loop_isolation(false)]
+#[verifier::exec_allows_no_decreases_clause]
+pub fn rebuild_moved_column(&mut self, sheet: u32, target_column: i32, original_cells: Vec<(i32, String, i32, Option<(i32, i32)>)>) -> (r: Result<(), String>)
+    requires forall|i: int| 0 <= i < original_cells@.len() ==> ((#[trigger] original_cells@[i]).3 matches Some(a) ==> a == (g_arr_w(), g_arr_h()))
+{
+    let ghost mut entered: bool = false;
+//@fragment base/src/actions.rs Model::move_column_unchecked `for (r, value, style_idx, array) in original_cells {` .. `.set_cell_style(r, target_column, style_idx)?;`
+//@before `if let Some(a) = array {`
+            proof { entered = false; }
+            assert(array matches Some(a) ==> a == (g_arr_w(), g_arr_h()));
+//@before `self.workbook`
+            assert(entered);   // the content has been re-entered on this path before the saved style is written
+//@after `self.set_user_input(sheet, r, target_column, value)?;`
+                proof { entered = true; }
+//@after `self.set_user_array_formula(sheet, r, target_column, a.0, a.1, &value)?;`
+                proof { entered = true; }
+//@end
+    Ok(())
+}
+
 #[verifier::loop_isolation(false)]
 pub fn band_shift(&mut self, sheet: u32, column: i32, delta: i32, target_column: i32) -> (r: Result<(), String>)
     requires small(column as int), small(delta as int), delta != 0, target_column == column + delta, column == g_column(), delta == g_delta()
